@@ -159,3 +159,23 @@ package shell
 
 //@ census[C07] (*Handler).pumpOutput in (*Handler).pumpStdout, (*Handler).pumpStderr
 //@ census[C07] DataWriter.WriteStreamData in (*Handler).writeEncrypted
+
+// SplitMessage: an over-long stdin/stdout/stderr message becomes consecutive
+// messages of the same type, each at most maxLen bytes, whose payloads are
+// consecutive pieces of the original payload (ghost c07split counts the
+// payload bytes re-encoded so far; every piece starts where the previous one
+// ended and the loop ends when all bytes are covered).
+
+//@ ghost var c07split int
+
+//@ func SplitMessage
+//@ prop C07
+//@ check bounds
+//@ modifies c07split
+//@ ghostinit c07split = 0
+//@ loop 0 invariant 0 <= offset && offset <= len(payload) && c07split == offset && len(parts) >= 0 && forall k in 0..len(parts): 2 <= len(parts[k]) && len(parts[k]) <= maxLen
+//@ at call EncodeMessage assert $0 == data[0] && base($1) == base(data) && offset($1) == offset(data) + 1 + c07split && len($1) >= 1 && len($1) <= maxLen - 1 && c07split + len($1) <= len(data) - 1
+//@ after call EncodeMessage set c07split = c07split + len($1)
+//@ ensures len(result) >= 1
+//@ ensures len(data) <= maxLen ==> len(result) == 1 && result[0] == data
+//@ ensures len(data) > maxLen && maxLen >= 2 && (data[0] == MsgStdin || data[0] == MsgStdout || data[0] == MsgStderr) ==> c07split == len(data) - 1 && forall k in 0..len(result): 2 <= len(result[k]) && len(result[k]) <= maxLen
